@@ -159,6 +159,8 @@ def run(check):
                               "distinct_outputs": len(seen)})
     if not check.violations:
         import_mix_part(check)
+    if not check.violations:
+        overlap_part(check)
     check.assumptions += ["a schedule is abstracted to an arrival order of per-file results plus hash iteration orders; real races inside ignore/crossbeam are realised only through the collector hook and repeated runs",
                           "the walker delivers every visible *.rs file exactly once (ignore crate, external)"]
 
@@ -215,5 +217,40 @@ def import_mix_part(check):
             check.violation("%s multi-file output differs between two runs of the same binary over the same three crates (process %d vs %d, "
                             "file %s: %s)" % (lang, k1, k2, diff, l2.text_diff(o1.get(diff, ""), o2.get(diff, ""))),
                             case={"lang": lang, "files": {f["rel"]: render_file(f["file"]) for f in files}, "styles": styles},
+                            impl={"a": o1, "b": o2}, failing_input=True)
+            return
+
+
+def overlap_part(check):
+    """source directories that overlap on the command line (a sub-directory named again, the same directory twice): files are
+    delivered more than once; whatever typeshare makes of that, it must make the same of it for every walker thread count and
+    in every run"""
+    rng = check.rng
+    for t in range(6 if check.thorough else 3):
+        lang = LANGS[(2 * t) % 6]
+        multi = t % 2 == 1
+        files, g = make_tree(rng, rng.randint(4, 8), multi, with_consts=False)
+        with Scratch() as sc:
+            for f in files:
+                sc.write("ws/" + f["rel"], render_file(f["file"]))
+            subdirs = sorted({os.path.dirname(f["rel"]) for f in files})
+            again = [sc.path("ws/" + d) for d in rng.sample(subdirs, min(2, len(subdirs)))]
+            dirs = [sc.path("ws")] + again + ([sc.path("ws")] if t % 3 == 0 else [])
+            seen = {}
+            for k, env in enumerate([{"TYPESHARE_VERIF_THREADS": str(n)} for n in (1, 2, 3, 4, 8, 16)] + [{} for _ in range(4)]):
+                out = sc.path("out")
+                shutil.rmtree(out, ignore_errors=True)
+                os.makedirs(out)
+                tgt = ["-d", out] if multi else ["-o", os.path.join(out, "out." + EXT[lang])]
+                r = run_cli(["--lang", lang] + tgt + lang_args(lang) + dirs, cwd=sc.dir, env=env)
+                outs = {fn: open(os.path.join(out, fn), encoding="utf-8", errors="replace").read() for fn in sorted(os.listdir(out))}
+                check.saw(("overlap", t, k), nontrivial=True)
+                check.count("overlapping-directories-%s" % lang)
+                seen.setdefault(digest(outs) + "|%s" % r["rc"], (env, outs))
+        if len(seen) > 1:
+            (e1, o1), (e2, o2) = list(seen.values())[:2]
+            check.violation("%s output over overlapping source directories differs between two runs (%s vs %s)" % (lang, e1, e2),
+                            case={"lang": lang, "multi_file": multi, "files": {f["rel"]: render_file(f["file"]) for f in files},
+                                  "directories": [os.path.relpath(d, sc.dir) for d in dirs], "env_a": e1, "env_b": e2},
                             impl={"a": o1, "b": o2}, failing_input=True)
             return
